@@ -27,7 +27,8 @@ RULE = (
 EXPECTED_PROBES = ["download.file_exists", "download.url_error", "download.licenseref_copy", "download.licenseref_touch",
                    "download.non200", "download.source_not_found", "download.licenses_dir_hack"]
 
-IDS = G.VALID + G.DEPRECATED + G.EXCEPTIONS
+# pairs in which one identifier is the beginning of the other belong to different licences
+IDS = G.VALID + G.DEPRECATED + G.EXCEPTIONS + ["MIT-0", "BSD-3-Clause-Clear", "GPL-2.0-only", "Apache-1.1"]
 # real licence texts are not ASCII: copyright signs, typographic quotes, names
 TEXTS = {i: f"Licence text of {i}\nCopyright \u00a9 the \u201cauthors\u201d, Ren\u00e9 \u2013 line two\n" for i in IDS}
 TEXTS["MIT"] = "MIT License\n\nCopyright (c) <year> <copyright holders>\n\nPermission is hereby granted… ünïcode\r\nCRLF line\n"
